@@ -1,4 +1,4 @@
 SPECIFICATION ASpec
-CONSTANTS Mode = "acc" AsFoundAlias = TRUE
+CONSTANTS Mode = "acc" MaxSteps = 3 AsFoundAlias = TRUE
 INVARIANT ProjectionUnchanged
 CHECK_DEADLOCK FALSE
